@@ -3,6 +3,9 @@
 use super::*;
 include!("/verif/harness/common.rs");
 
+// slice-based family, selected per property at compile time (see harness/ripd/session.rs)
+include!(env!("VERIF_SLICE_C08"));
+
 fn msg_event(seq: u64) -> Event {
     Event {
         id: String::new(),
